@@ -3,20 +3,26 @@
 
    Shape: the planners are transition systems; [balance_accepts], [evac_accepts],
    [fix_accepts] say that a recorded plan is one the Go code can produce on a
-   snapshot; [prop_trace] evaluates the four clauses of the property on the real
-   cluster after every step (ok_coloc, ok_cap, ok_pres, ok_repair).  All theorems
-   quantify over all snapshots and all accepted plans (induction over the plan).
-   Six defects of the Go planners were confirmed; three are repaired in the tree
+   snapshot; [prop_step] evaluates the four clauses of the property on the real
+   cluster at every step (ok_coloc, ok_cap, ok_pres, ok_repair), [prop_trace] is their
+   conjunction over a plan.  All theorems quantify over all snapshots and all accepted
+   plans (induction over the plan).
+   Eight defects of the Go planners were confirmed; three are repaired in the tree
    (repair counts its planned copies, -retry does not repeat a successful repair,
    isGoodMove is consulted for replication 000) and the model follows the repaired code:
-   their clauses are now full theorems.  For the three that remain (k0 balance capacity,
-   k1 evacuate capacity, k2 isGoodMove rack count) the broken clauses are stated as
-   [_refuted] (witness evaluated in the faithful model) and [_partial] (under the
-   decidable trigger of the finding being off). *)
+   their clauses are full theorems.  For the four that remain (k0 balance capacity,
+   k1 evacuate capacity, k2 isGoodMove rack count, k3 purge of an over-replicated volume
+   ignores placement) the broken clauses are stated as [_refuted] (witness evaluated in the
+   faithful model) and [_partial].  The partial theorems are PER STEP:
+   [excused clause trig s w plan] says that every step of the plan either satisfies the clause
+   or lies in the decidable trigger set of the finding — evaluated for that step alone (the
+   moved replica's replication setting, the target server of the move, the purged volume's
+   replica set), so no other violation can hide behind another volume or server. *)
 From Coq Require Import List NArith ZArith Bool.
 From SW Require Import model.VolPlanner proof.VolPlannerProofs proof.VolPlannerProofs2
   proof.VolPlannerProofs3 proof.VolPlannerProofs4 proof.VolPlannerProofs5 proof.VolPlannerProofs6
-  proof.VolPlannerProofs7 proof.VolPlannerProofs8 proof.VolPlannerProofs9.
+  proof.VolPlannerProofs7 proof.VolPlannerProofs8 proof.VolPlannerProofs9 proof.VolPlannerProofs10
+  proof.VolPlannerProofs11.
 Import ListNotations.
 
 (* ===== the two placement functions against the spec (all inputs) ===== *)
@@ -28,6 +34,17 @@ Theorem c15_satisfy_keeps_completable : forall p l c,
   SubP p (c :: l) /\ ~ In (l_node c) (map l_node l).
 Proof. exact (fun p l c H1 H2 H3 => conj (satisfy_SubP p l c H1 H2 H3) (satisfy_no_coloc p l c H2 H3)). Qed.
 Print Assumptions c15_satisfy_keeps_completable.
+
+(* a completable set never has more than copy_count members, hence satisfyReplicaPlacement
+   admits no copy for a volume whose replicas already form a valid layout.  FULL. *)
+Theorem c15_completable_at_most_copy_count : forall p l, SubP p l -> length l <= copy_count p.
+Proof. exact SubP_length. Qed.
+Print Assumptions c15_completable_at_most_copy_count.
+
+Theorem c15_satisfy_refuses_satisfied_volume : forall p l c,
+  ids_ok (c :: l) -> satisfy p l c = true -> valid_placement p l = false.
+Proof. exact satisfy_not_valid. Qed.
+Print Assumptions c15_satisfy_refuses_satisfied_volume.
 
 (* isGoodMove: never onto a server holding the volume.  FULL. *)
 Theorem c15_good_move_no_colocation : forall p l f t, ids_ok (t :: l) ->
@@ -85,8 +102,19 @@ Theorem c15_capacity_own_balance : forall c st vid dt from to t,
 Proof. exact balance_step_own_capacity. Qed.
 Print Assumptions c15_capacity_own_balance.
 
-(* by the true count: PARTIAL *)
+(* by the true count: PARTIAL, per step — every move of an accepted volume.balance plan goes to
+   a server with a free slot, or THAT target server is in the trigger set of finding 0
+   ([node_cap_trig]: its unselected volumes leave no room for its ideal share) *)
 Theorem c15_capacity_balance_partial : forall limit s colls dts tr w',
+  NoDup (map n_id s) -> caps_nonneg s ->
+  balance_accepts limit s colls dts tr = Some w' ->
+  balance_cap_excused limit s (phases_of colls dts) (init_world s) tr = true.
+Proof. exact (fun limit s colls dts tr w' H1 H2 H3 =>
+                balance_run_cap_excused limit s (phases_of colls dts) (init_world s) tr w' H1 H2 H3). Qed.
+Print Assumptions c15_capacity_balance_partial.
+
+(* the former, coarser form (no phase starts with ANY server in the trigger set) *)
+Theorem c15_capacity_balance_partial_run : forall limit s colls dts tr w',
   NoDup (map n_id s) -> caps_nonneg s ->
   balance_accepts limit s colls dts tr = Some w' ->
   trig_balance_cap limit s (phases_of colls dts) (init_world s) tr = false ->
@@ -95,13 +123,23 @@ Proof.
   exact (fun limit s colls dts tr w' H1 H2 H3 H4 =>
            proj1 (balance_run_capacity limit s (phases_of colls dts) (init_world s) tr w' H1 H2 H3 H4)).
 Qed.
-Print Assumptions c15_capacity_balance_partial.
+Print Assumptions c15_capacity_balance_partial_run.
 
+(* PARTIAL, per step — every move of an accepted evacuate plan goes to a server with a free slot,
+   or THAT target cannot take all volumes of the moved volume's disk type that the evacuated
+   server holds ([evac_cap_trig s this to dt], finding 1) *)
 Theorem c15_capacity_evacuate_partial : forall s this skip evs,
+  NoDup (map n_id s) -> evac_accepts s this skip evs = true ->
+  excused ok_cap (step_evac_trig s this) s (init_world s) (evac_steps this evs) = true.
+Proof. exact evac_accepts_cap_excused. Qed.
+Print Assumptions c15_capacity_evacuate_partial.
+
+(* the former, coarser form (NO other server is in the trigger set) *)
+Theorem c15_capacity_evacuate_partial_run : forall s this skip evs,
   NoDup (map n_id s) -> trig_evac_cap s this = false -> evac_accepts s this skip evs = true ->
   ok_cap (prop_trace s (init_world s) (evac_steps this evs)) = true.
 Proof. exact evac_accepts_capacity. Qed.
-Print Assumptions c15_capacity_evacuate_partial.
+Print Assumptions c15_capacity_evacuate_partial_run.
 
 (* repair, by the true count: FULL (VolumeCount of a disk >= number of its volumes) *)
 Theorem c15_capacity_repair : forall s retry evs, wf_snap s -> counts_okb s = true ->
@@ -125,19 +163,55 @@ Proof.
 Qed.
 Print Assumptions c15_capacity_refuted.
 
+(* the EC half of volumeServer.evacuate: PARTIAL, per step — every EC shard of an accepted plan
+   goes to a server with a free EC slot, or THAT server cannot take all the shards the evacuated
+   server holds ([ec_cap_trig], finding 4: moveAwayOneEcVolume never tests freeEcSlot) *)
+Theorem c15_capacity_evacuate_ec_partial : forall es this skip evs,
+  NoDup (map e_id es) -> ec_evac_accepts es this skip evs = true ->
+  ec_cap_steps (ec_cap_trig es this) (ec_others es this) evs = true.
+Proof. exact ec_evac_accepts_cap_excused. Qed.
+Print Assumptions c15_capacity_evacuate_ec_partial.
+
+(* REFUTED: the shards go to the server with the fewest shards of the volume, here one without
+   any free EC slot, although another server has 18 *)
+Theorem c15_capacity_evacuate_ec_refuted : exists es this skip evs,
+  NoDup (map e_id es) /\ ec_evac_accepts es this skip evs = true /\
+  ec_ok_cap (ec_others es this) evs = false.
+Proof.
+  exact (ex_intro _ w9_ec (ex_intro _ 1%N (ex_intro _ true (ex_intro _ w9_events
+    (conj (proj1 w9_facts) (conj (proj1 (proj2 w9_facts)) (proj1 (proj2 (proj2 w9_facts))))))))).
+Qed.
+Print Assumptions c15_capacity_evacuate_ec_refuted.
+
 (* ===== c15_placement_preserved ===== *)
+(* PARTIAL, per step — every move of an accepted plan keeps a valid layout valid, or the
+   replication setting of the MOVED replica has x >= 1 and y >= 2 ([step_rp_trig], finding 2) *)
 Theorem c15_placement_preserved_balance_partial : forall limit s colls dts tr w',
+  wf_snap s -> phases_ok (phases_of colls dts) = true ->
+  balance_accepts limit s colls dts tr = Some w' ->
+  excused ok_pres step_rp_trig s (init_world s) tr = true.
+Proof. exact balance_accepts_excused. Qed.
+Print Assumptions c15_placement_preserved_balance_partial.
+
+Theorem c15_placement_preserved_evacuate_partial : forall s this skip evs,
+  wf_snap s -> evac_accepts s this skip evs = true ->
+  excused ok_pres step_rp_trig s (init_world s) (evac_steps this evs) = true.
+Proof. exact evac_accepts_excused. Qed.
+Print Assumptions c15_placement_preserved_evacuate_partial.
+
+(* the former, coarser forms (NO volume of the snapshot has x >= 1 and y >= 2) *)
+Theorem c15_placement_preserved_balance_partial_run : forall limit s colls dts tr w',
   wf_snap s -> phases_ok (phases_of colls dts) = true ->
   balance_accepts limit s colls dts tr = Some w' -> trig_rp_xy s = false ->
   ok_pres (prop_trace s (init_world s) tr) = true.
 Proof. exact (fun limit s colls dts tr w' H1 H3 H4 => proj2 (balance_accepts_safe limit s colls dts tr w' H1 H3 H4)). Qed.
-Print Assumptions c15_placement_preserved_balance_partial.
+Print Assumptions c15_placement_preserved_balance_partial_run.
 
-Theorem c15_placement_preserved_evacuate_partial : forall s this skip evs,
+Theorem c15_placement_preserved_evacuate_partial_run : forall s this skip evs,
   wf_snap s -> evac_accepts s this skip evs = true -> trig_rp_xy s = false ->
   ok_pres (prop_trace s (init_world s) (evac_steps this evs)) = true.
 Proof. exact (fun s this skip evs H1 H3 => proj2 (evac_accepts_safe s this skip evs H1 H3)). Qed.
-Print Assumptions c15_placement_preserved_evacuate_partial.
+Print Assumptions c15_placement_preserved_evacuate_partial_run.
 
 Theorem c15_placement_preserved_refuted : exists s this skip evs,
   wf_snap s /\ evac_accepts s this skip evs = true /\
@@ -150,27 +224,147 @@ Print Assumptions c15_placement_preserved_refuted.
 
 (* ===== c15_repair_satisfies ===== *)
 (* every copy of an accepted repair plan (any -retry) keeps its volume's replica set
-   completable to a valid layout, and a purge never goes below the copy count.  FULL. *)
+   completable to a valid layout.  FULL. *)
 Theorem c15_repair_satisfies : forall s retry evs, wf_snap s -> fix_accepts s retry evs = true ->
-  ok_repair (prop_trace s (init_world s) (fix_steps evs)) = true /\
-  ok_pres (prop_trace s (init_world s) (fix_steps evs)) = true.
-Proof. exact (fun s retry evs H1 H2 => proj2 (fix_accepts_safe s retry evs H1 H2)). Qed.
+  ok_repair (prop_trace s (init_world s) (fix_steps evs)) = true.
+Proof. exact (fun s retry evs H1 H2 => proj1 (proj2 (fix_accepts_safe s retry evs H1 H2))). Qed.
 Print Assumptions c15_repair_satisfies.
 
-(* ===== non-vacuity: accepted, non-empty plans with every hypothesis satisfied ===== *)
+(* a purge never goes below the copy count.  FULL. *)
+Theorem c15_purge_keeps_copy_count : forall s retry evs, wf_snap s -> fix_accepts s retry evs = true ->
+  all_steps purge_count_ok s (init_world s) (fix_steps evs) = true.
+Proof. exact (fun s retry evs H1 H2 => proj2 (proj2 (proj2 (fix_accepts_safe s retry evs H1 H2)))). Qed.
+Print Assumptions c15_purge_keeps_copy_count.
+
+(* repair never turns a satisfied volume into an unsatisfied one: a copy is never planned for a
+   volume whose replicas form a valid layout (FULL inside the clause), and if copy_count of an
+   over-replicated volume's copies formed a valid layout, copy_count of the copies left by the
+   purge still do — PARTIAL, per step: unless some OLDEST copy of THAT volume is needed by every
+   valid subset ([delete_pres_trig], finding 3: pickOneReplicaToDelete ranks by age alone) *)
+Theorem c15_repair_preserves_partial : forall s retry evs, wf_snap s -> fix_accepts s retry evs = true ->
+  excused ok_pres step_delete_trig s (init_world s) (fix_steps evs) = true.
+Proof. exact (fun s retry evs H1 H2 => proj1 (proj2 (proj2 (fix_accepts_safe s retry evs H1 H2)))). Qed.
+Print Assumptions c15_repair_preserves_partial.
+
+(* REFUTED: 010 volume on n1 (r1), n2 (r1), n3 (r2), n3 the oldest: n3 is purged, both
+   remaining copies share rack r1 although {n1, n3} was a valid layout *)
+Theorem c15_repair_preserves_refuted : exists s retry evs,
+  wf_snap s /\ counts_okb s = true /\ fix_accepts s retry evs = true /\
+  ok_pres (prop_trace s (init_world s) (fix_steps evs)) = false.
+Proof.
+  exact (ex_intro _ w6_snap (ex_intro _ 0 (ex_intro _ w6_events
+    (conj (proj1 (wf_snapb_iff _) (proj1 w6_facts))
+      (conj (proj1 (proj2 w6_facts))
+        (conj (proj1 (proj2 (proj2 w6_facts)))
+              (proj1 (proj2 (proj2 (proj2 (proj2 (proj2 w6_facts)))))))))))).
+Qed.
+Print Assumptions c15_repair_preserves_refuted.
+
+(* ===== non-vacuity: the hypotheses are satisfiable on non-trivial inputs ===== *)
+(* hypotheses of c15_good_move_preserves_partial / c15_good_move_no_colocation: a 010 volume *)
+Example c15_example_good_move :
+  let p := rp_of_byte 10 in let l := [exl 1 1 1; exl 1 2 2]%N in let f := exl 1 1 1 in let t := exl 1 3 3 in
+  valid_placement p l = true /\ In f l /\ ids_ok (t :: l) /\ is_good_move p l f t = true /\
+  rp_trig p = false /\ valid_placement p (relocate_loc f t l) = true.
+Proof. exact ex_good_move_facts. Qed.
+Print Assumptions c15_example_good_move.
+
+(* hypotheses of c15_satisfy_keeps_completable: a 011 volume lacking its same-rack copy *)
+Example c15_example_satisfy :
+  let p := rp_of_byte 11 in let l := [exl 1 1 1; exl 1 2 2]%N in let c := exl 1 1 3 in
+  SubP p l /\ ids_ok (c :: l) /\ satisfy p l c = true /\ valid_placement p (c :: l) = true.
+Proof. exact ex_satisfy_facts. Qed.
+Print Assumptions c15_example_satisfy.
+
+(* hypotheses of c15_capacity_own_balance, on the first step of the run below *)
+Example c15_example_own_capacity :
+  balance_step_ok ex2_ctx ex2_st 1 0 1 3 = true /\
+  find_cap ex2_ctx 3 = Some (exl 1 3 3, 4%Z) /\
+  (0 < bc_max_total ex2_ctx)%Z /\ (bc_sel_total ex2_ctx <= bc_max_total ex2_ctx)%Z /\ (0 < snd (exl 1 3 3, 4%Z))%Z.
+Proof. exact ex2_own_capacity_facts. Qed.
+Print Assumptions c15_example_own_capacity.
+
+(* an accepted, non-empty volume.balance plan that moves a replicated (010) volume whose
+   placement is valid before and after; no trigger, every clause holds *)
+Example c15_example_balance_replicated :
+  wf_snapb ex2_snap = true /\ phases_ok (phases_of [None] [0%N]) = true /\
+  is_some (balance_accepts 1000 ex2_snap [None] [0%N] ex2_plan) = true /\
+  balance_cap_excused 1000 ex2_snap (phases_of [None] [0%N]) (init_world ex2_snap) ex2_plan = true /\
+  trig_balance_cap 1000 ex2_snap (phases_of [None] [0%N]) (init_world ex2_snap) ex2_plan = false /\
+  step_rp_trig (init_world ex2_snap) (Move 1 0 1 3) = false /\
+  valid_placement (rp_of_byte 10) (locs (w_reps (init_world ex2_snap) 1)) = true /\
+  valid_placement (rp_of_byte 10) (locs (w_reps (run_trace ex2_snap (init_world ex2_snap) ex2_plan) 1)) = true /\
+  v4_all (prop_trace ex2_snap (init_world ex2_snap) ex2_plan) = true.
+Proof. exact ex2_facts. Qed.
+Print Assumptions c15_example_balance_replicated.
+
+(* one volume moved twice in one run (010: both copies go to new racks r3, r4), and the run
+   where the second move must be refused (the empty servers share rack r3) *)
+Example c15_example_two_moves :
+  wf_snapb w7_snap = true /\
+  is_some (balance_accepts 1000 w7_snap [None] [0%N] w7_plan) = true /\
+  v4_all (prop_trace w7_snap (init_world w7_snap) w7_plan) = true /\
+  locs (w_reps (run_trace w7_snap (init_world w7_snap) w7_plan) 1) =
+    [ {| l_dc := 1; l_rack := 4; l_node := 4 |}; {| l_dc := 1; l_rack := 3; l_node := 3 |} ]%N /\
+  wf_snapb w8_snap = true /\
+  is_some (balance_accepts 1000 w8_snap [None] [0%N] w8_plan) = true /\
+  is_some (balance_accepts 1000 w8_snap [None] [0%N] [Move 1 0 2 3; Move 1 0 1 4]%N) = false /\
+  ok_pres (prop_trace w8_snap (init_world w8_snap) [Move 1 0 2 3; Move 1 0 1 4]%N) = false /\
+  v4_all (prop_trace w8_snap (init_world w8_snap) w8_plan) = true.
+Proof. exact w7_facts. Qed.
+Print Assumptions c15_example_two_moves.
+
 Example c15_example_balance :
   wf_snapb ex_snap = true /\ trig_rp_xy ex_snap = false /\
   phases_ok (phases_of [None] [0%N; 1%N]) = true /\ phases_ok (phases_of [Some 1%N; Some 2%N] [0%N; 1%N]) = true /\
   is_some (balance_accepts 1000 ex_snap [None] [0%N] ex_plan) = true /\
   trig_balance_cap 1000 ex_snap (phases_of [None] [0%N]) (init_world ex_snap) ex_plan = false /\
   v4_all (prop_trace ex_snap (init_world ex_snap) ex_plan) = true.
-Proof. vm_compute. repeat split; reflexivity. Qed.
+Proof. exact ex_balance_facts. Qed.
+Print Assumptions c15_example_balance.
 
 Example c15_example_evacuate_repair :
   evac_accepts ex_snap 1 true [EMove 1 0 2; EMove 2 0 2; ESkip 3]%N = true /\ trig_evac_cap ex_snap 1 = false /\
+  excused ok_cap (step_evac_trig ex_snap 1) ex_snap (init_world ex_snap)
+          (evac_steps 1 [EMove 1 0 2; EMove 2 0 2; ESkip 3]%N) = true /\
+  step_evac_trig ex_snap 1 (init_world ex_snap) (Move 1 0 1 2) = false /\
   wf_snapb ex_fix_snap = true /\ counts_okb ex_fix_snap = true /\
-  fix_accepts ex_fix_snap 0 [FCopy 1 1 3]%N = true.
-Proof. vm_compute. repeat split; reflexivity. Qed.
+  fix_accepts ex_fix_snap 0 [FCopy 1 1 3]%N = true /\
+  v4_all (prop_trace ex_fix_snap (init_world ex_fix_snap) [Copy 1 1 3]%N) = true.
+Proof. exact ex_evacuate_repair_facts. Qed.
+Print Assumptions c15_example_evacuate_repair.
+
+(* the EC half of evacuate: the witness with its trigger, and a plan where every step has a free
+   EC slot and no trigger is on *)
+Example c15_example_evacuate_ec :
+  (NoDup (map e_id w9_ec) /\ ec_evac_accepts w9_ec 1 true w9_events = true /\
+   ec_ok_cap (ec_others w9_ec 1) w9_events = false /\
+   ec_cap_trig w9_ec 1 2 = true /\ ec_cap_trig w9_ec 1 3 = false /\
+   ec_evac_accepts w9_ec 1 true [EcMove 7 0 3; EcMove 7 1 3; EcMove 7 2 3]%N = false) /\
+  (NoDup (map e_id ex_ec) /\
+   ec_evac_accepts ex_ec 1 true [EcMove 7 0 2; EcMove 7 1 2; EcMove 8 5 3]%N = true /\
+   ec_ok_cap (ec_others ex_ec 1) [EcMove 7 0 2; EcMove 7 1 2; EcMove 8 5 3]%N = true /\
+   ec_cap_trig ex_ec 1 2 = false /\ ec_cap_trig ex_ec 1 3 = false).
+Proof. exact (conj w9_facts ex_ec_facts). Qed.
+Print Assumptions c15_example_evacuate_ec.
+
+(* the purge finding: the witness is accepted, its trigger is on; only the head of the
+   over-replicated list is purged in a dry run, and with equally old copies the trigger is off *)
+Example c15_example_purge :
+  (wf_snapb w6_snap = true /\ counts_okb w6_snap = true /\
+   fix_accepts w6_snap 0 w6_events = true /\
+   has_valid_subset (rp_of_byte 10) (locs (reps_of w6_snap 1)) = true /\
+   has_valid_subset (rp_of_byte 10) (locs (remove_at 3 (reps_of w6_snap 1))) = false /\
+   ok_pres (prop_trace w6_snap (init_world w6_snap) (fix_steps w6_events)) = false /\
+   step_delete_trig (init_world w6_snap) (Delete 1 3) = true /\
+   fix_accepts w6_snap 0 [FOver 1; FDelete 1 1]%N = false /\
+   ok_pres (prop_trace w6_snap (init_world w6_snap) [Delete 1 1]%N) = true) /\
+  (fix_accepts w6b_snap 0 [FOver 1; FOver 2; FDelete 1 2]%N = true /\
+   fix_accepts w6b_snap 0 [FOver 2; FOver 1; FDelete 2 1]%N = true /\
+   fix_accepts w6b_snap 0 [FOver 1; FOver 2; FDelete 2 1]%N = false /\
+   step_delete_trig (init_world w6b_snap) (Delete 1 2) = false).
+Proof. exact (conj w6_facts w6b_facts). Qed.
+Print Assumptions c15_example_purge.
 
 (* the witnesses of the three repaired defects: the old plans are no longer accepted,
    the plans of the repaired code are, and every clause holds on them *)
@@ -182,4 +376,5 @@ Example c15_example_repaired :
   (is_some (balance_accepts 1000 w4_snap [None] [0%N] [Move 1 0 1 2]%N) = false /\
    is_some (balance_accepts 1000 w4_snap [None] [0%N] w4_plan) = true /\
    v4_all (prop_trace w4_snap (init_world w4_snap) w4_plan) = true).
-Proof. vm_compute. repeat split; reflexivity. Qed.
+Proof. exact ex_repaired_facts. Qed.
+Print Assumptions c15_example_repaired.
